@@ -1,6 +1,7 @@
 use crate::engine::Run;
 use serde_json::Value;
 
+pub mod c02;
 pub mod c10;
 pub mod c11;
 pub mod c12;
@@ -14,6 +15,7 @@ pub type ReplayFn = fn(&Run, &str, &Value) -> Option<bool>;
 
 /// (id, evidence level, run, replay)
 pub const REGISTRY: &[(&str, &str, RunFn, ReplayFn)] = &[
+    ("C02", "exploration", c02::run, c02::replay),
     ("C10", "exploration", c10::run, c10::replay),
     ("C11", "exploration", c11::run, c11::replay),
     ("C12", "exploration", c12::run, c12::replay),
